@@ -174,3 +174,14 @@ def clock_constraint_uses_undeduplicated_port_name(v):
         return False
     base = f"bus_{col[0]}__d_1__io"
     return re.sub(r"\$\d+$", "", d.get("port", "")) == base
+
+
+@predicate
+def cached_fragment_cannot_be_elaborated_twice(v):
+    """F25: an elaboratable whose elaborate() hands out the same Instance object every time makes the second
+    elaboration of the design raise DuplicateElaboratable (Fragment.get prepends the origins again to the reused
+    fragment).  Record structure: the re-elaboration mechanism with exactly that exception, on a design that
+    contains such a cached Instance."""
+    d = v.get("detail", {})
+    return v.get("mechanism") == "same-design-object-cannot-be-elaborated-again:DuplicateElaboratable" and \
+        d.get("has_cached_instance") is True
